@@ -96,6 +96,7 @@ def run_episode(args):
                     mode_weights=profile.get("mode_weights"),
                     invalid_nicks=profile.get("invalid_nicks", False),
                     empty_text=profile.get("empty_text", 0.0))
+        g.boundary_rate = profile.get("boundary_rate", g.boundary_rate)
         w.serial_noise = random.Random(seed ^ 0x5EA1) if profile.get("serial_noise") else None
         stop_on = profile.get("stop_on_violation", True)
         known = set(profile.get("known_signatures", ()))
@@ -110,6 +111,8 @@ def run_episode(args):
                 v = w.half_open(a[1], a[2])
             elif a[0] == "half_complete":
                 v = w.half_complete(a[1], a[2])
+            elif a[0] == "half_probe":
+                v = w.half_probe(a[1], a[2])
             else:
                 v = w.end_client(a[1], a[2])
             res["steps"] += 1
